@@ -47,7 +47,7 @@ PROPS = {
     },
     "C18": {
         "level": "proof",
-        "units": ["base64", "base32", "base16"],
+        "units": ["base64", "base32", "base16", "iterscan"],
         "kani": (
             [{"group": "g0", "name": f"c18_b64_display_len{n}", "kind": "complete", "tier": "quick",
               "what": f"base64::display of every {n}-octet chunk equals the RFC 4648 section 4 encoding (arithmetic spec)"} for n in (1, 2, 3)]
@@ -516,6 +516,14 @@ PROPS = {
         "level": "proof",
         "level_prefix": "Partial proof -- contracts discharged without bound on the mechanisms named below, not the whole statement (bounded stand-ins and what is left out are listed): ",
         "units": ["rrsigdata", "nameorder", "keytag"],
+        "extra_searches": [
+            {"bin": "c12_search_rsa_keys", "crate": "replay_sign", "release": True,
+             "what": "RSA keys: crypto::common::rsa_exponent_modulus (through which every RSA DNSKEY reaches the verifier) against RFC 3110 section 2 "
+                     "written out independently over 22 400 key fields -- both encodings of the exponent length, exponent and modulus lengths on both "
+                     "sides of 1 and 512 octets, leading zero octets, fields cut short, minimum modulus lengths on both sides of the actual one; RRsets "
+                     "signed with RSASHA256 keys of 2048 and 4096 bits (fixtures generated for this check) verify under the signer's own DNSKEY over the "
+                     "data the validator reconstructs, an altered RRset does not -- on the real crate (slice patterns and ring: outside both verifiers)"},
+        ],
         "vx_search": {"bin": "c12_search_sign_verify", "crate": "replay_sign", "release": True,
                       "what": "A and MX RRsets under ordinary, wildcard and interior-asterisk owners signed with fresh Ed25519 and ECDSA P-256 keys "
                               "(ring): the RRSIG carries the RFC 4034 3.1.3 label count and verifies over the data RrsigExt::signed_data "
